@@ -88,6 +88,7 @@ type Exec struct {
 	pathSym  bool // some property assertion on this path still contained a symbolic variable
 	panicsOK int  // >0: inside verifrt.Panics(f)
 	pending  []pendingAssert
+	snaps    []*snapNode
 
 	// per path results (merged into the harness stats at path end)
 	res pathResult
